@@ -151,8 +151,9 @@ register(Contract(
     # g_fixflag: file name -> did_fix_file;  g_announced: names printed as "Fixed: <name>"
     # g_nfail / g_nfix: how many of the processed files failed / were fixed
     ghost={"g_succ": "List[bool]", "g_fix": "List[bool]", "g_fixflag": "Dict[str, bool]", "g_announced": "Set[str]", "g_stdin_ok": "bool",
-           "g_nfail": "int", "g_nfix": "int"},
+           "g_nfail": "int", "g_nfix": "int", "g_files": "Set[str]", "g_written": "Set[str]"},
     requires=[f"scheme_ok({SCHEME})", "is_empty(g_succ) and is_empty(g_fix) and is_empty(g_announced) and is_empty(g_fixflag)",
+              "is_empty(g_files) and is_empty(g_written)", f"forall(lambda j: user_file({FILES}[j]), 0, len({FILES}))",
               "not g_stdin_ok", "g_nfail == 0 and g_nfix == 0", "implies(use_standard_in, args.primary_subparser != 'fix')",
               # C19 delivers a duplicate-free list (sorted(set(...)))
               f"forall(lambda a, b: implies(a < b, {FILES}[a] != {FILES}[b]), 0, len({FILES}))"],
@@ -176,12 +177,17 @@ register(Contract(
         f"forall(lambda j: implies(g_fix[j], old({FILES}[j]) in g_announced), 0, len(g_fix))",
         "forall_val(lambda x: implies(x in g_announced, x in g_fixflag and g_fixflag[x]))",
         "implies(args.primary_subparser != 'fix', len(g_announced) == 0)",
+        # C10: scan / scan-stdin never overwrite a file and leave no temporary file; fix leaves no temporary file
+        "implies(args.primary_subparser != 'fix', forall_val(lambda x: x not in g_written))",
+        "forall_val(lambda x: x not in g_files)",
+        # only files of the argument list are ever overwritten
+        f"forall_val(lambda x: implies(x in g_written, exists(lambda j: old({FILES}[j]) == x, 0, old(len({FILES})))))",
         MONO,
     ],
     xensures={"BaseException": [MONO]},
     raises=[Raises("SystemExit", code=SYSERR), Raises("BadTokenizationError", when="not args.continue_on_error"),
-            Raises("OSError"), Raises("UnicodeError"), Raises("AssertionError"), Raises("ValueError")],
-    modifies=["*", "__continue_on_error", "g_stdin_ok", "number_of_scan_failures"],
+            Raises("OSError"), Raises("UnicodeError"), Raises("AssertionError"), Raises("ValueError"), Raises("KeyError")],
+    modifies=["*", "__continue_on_error", "g_stdin_ok", "number_of_scan_failures", "g_files.$dict", "g_written.$dict"],
     loops={0: Loop(index="idx", frozen_iter="files_to_scan is the list built by ApplicationFileScanner.determine_files_to_scan; it is "
                    "passed only to process_files_to_scan and never stored (structural obligation C15::files_list_not_aliased)",
                    invariant=[
@@ -193,6 +199,8 @@ register(Contract(
         f"forall(lambda k: old({FILES}[k]) not in g_fixflag, idx, old(len({FILES})))",
         "implies(not in_fix_mode, len(g_announced) == 0)",
         f"scheme_ok({SCHEME})", "self.__continue_on_error == args.continue_on_error", MONO, "self.__plugins is old(self.__plugins)",
+        "forall_val(lambda x: x not in g_files)", "implies(not in_fix_mode, forall_val(lambda x: x not in g_written))",
+        f"forall_val(lambda x: implies(x in g_written, exists(lambda j: old({FILES}[j]) == x, 0, idx)))",
     ])},
 ))
 
@@ -203,9 +211,9 @@ register(Contract(
     types={"args": "Namespace", "outfile": "TempFile"},
     calls={"self.__scan_specific_file": (FSH + "__scan_specific_file", ["g_stdin_ok = result"]),
            "outfile.write": "TempFile.write"},
-    ensures=["len(g_files) == old(len(g_files))",       # C10/C15: the spool file is removed on every normal exit
+    ensures=["forall_val(lambda x: (x in g_files) == old(x in g_files))",       # C10/C15: the spool file is removed on every normal exit
              "result == g_stdin_ok", MONO],             # the outcome of the scan of the spooled input is handed back
-    xensures={"BaseException": ["len(g_files) == old(len(g_files))", MONO]},  # ... and on every exceptional exit
+    xensures={"BaseException": ["forall_val(lambda x: (x in g_files) == old(x in g_files))", MONO]},  # ... and on every exceptional exit
     raises=[Raises("SystemExit", code=SYSERR), Raises("BadTokenizationError", when="not self.__continue_on_error"),
             Raises("UnicodeError"), Raises("ValueError")],
     modifies=["*", "g_stdin_ok", "g_files.$dict", "number_of_scan_failures"],
@@ -216,24 +224,23 @@ FIX_RAISES = [Raises("BadPluginError"), Raises("BadPluginFixError"), Raises("Bad
 
 register(Contract(
     key=FSH + "__fix_specific_file", properties=["C15", "C10", "C18"],
-    ghost={"g_done": "bool", "g_ret": "bool"},
-    requires=[f"scheme_ok({SCHEME})", "not g_done"],
+    ghost={"g_done": "bool", "g_ret": "bool", "g_files": "Set[str]", "g_written": "Set[str]"},
+    requires=[f"scheme_ok({SCHEME})", "not g_done", "next_file not in g_files", "user_file(next_file)"],
     calls={"self.__process_file_fix": (FSH + "__process_file_fix", ["g_done = True", "g_ret = result"])},
     ensures=["result[1] == g_done",                      # did_succeed <=> the fix of this file ran to completion
              "implies(result[1], result[0] == g_ret)",   # did_fix_file is what the fixer reported
              "implies(not result[1], not result[0])",    # a file whose fix failed is never reported as fixed
+             # C10: the file's bytes were overwritten  <=>  it is reported as fixed (D8: not when a later fix level fails)
+             "(next_file in g_written) == (old(next_file in g_written) or result[0])",
+             "forall_val(lambda x: implies(x != next_file, (x in g_written) == old(x in g_written)))",
+             "forall_val(lambda x: (x in g_files) == old(x in g_files))",     # C15: no temporary file is left, also when the fix failed
              MONO],
-    xensures={"BaseException": [MONO]},
+    xensures={"BaseException": [MONO, "forall_val(lambda x: (x in g_files) == old(x in g_files))"]},
     raises=[Raises("SystemExit", code=SYSERR), Raises("BadTokenizationError", when="not self.__continue_on_error"),
-            Raises("OSError"), Raises("UnicodeError"), Raises("AssertionError")],
-    modifies=["*", "number_of_scan_failures"],
+            Raises("OSError"), Raises("UnicodeError"), Raises("AssertionError"), Raises("KeyError")],
+    modifies=["*", "number_of_scan_failures", "g_files.$dict", "g_written.$dict"],
 ))
 
-register(Assumed(
-    key=FSH + "__process_file_fix", returns="bool", raises=FIX_RAISES, modifies=["*", "number_of_scan_failures"],
-    ensures=[MONO], xensures={"BaseException": [MONO]},
-    why="TEMPORARY until the fix-level scheduler contracts (C09/C10) are in place",
-))
 
 register(Contract(
     key=FSH + "__scan_file", properties=["C15", "C07", "C14"],
@@ -259,4 +266,135 @@ register(Contract(
     xensures={"Exception": ["implies(len(calls) > old(len(calls)) + 1, calls[len(calls) - 1] == ('report', g_ctx))", MONO]},
     raises=[Raises("BadPluginError"), Raises("BadTokenizationError")],
     modifies=["*", "g_ctx", "g_tokens", "calls.$list", "number_of_scan_failures"],
+))
+
+
+# ---------------------------------------------------------------------------------------------------------
+# C10 / C09 / C15: fix mode.  Ghost g_files: temporary files of this run that currently exist; g_written: targets of
+# shutil.copyfile (the only call that changes a user's file).
+import z3 as _z3
+from pyvc.spec import spec_fn as _spec_fn
+from pyvc.sym import V as _V, vbool as _vbool
+
+_uf = _z3.Function("user_file", _z3.IntSort(), _z3.BoolSort())
+
+
+@_spec_fn("user_file")
+def user_file(ex, st, args):
+    """user_file(path): the path names a file given by the user (as opposed to a temporary file created by this run)"""
+    return _vbool(_uf(_V.s(args[0].z)))
+
+
+FIXG = {"g_files": "Set[str]", "g_written": "Set[str]"}
+TMPNAME = Assumed("FileScanHelper.__get_temporary_file_name", returns="str", pure=True,
+                  ensures=["result not in g_files", "len(result) > 0", "not user_file(result)"],
+                  why="NamedTemporaryFile().name after the handle is closed: a fresh path that does not exist (reserved name; the file is "
+                      "created by the later open(name, 'wt'))")
+OPEN_WT = Assumed("open(name, 'wt')", params=["file", "mode", "encoding"], returns="TextFile", fresh_result=True, raises=[Raises("OSError")],
+                  effects=["g_files.add_if(mode == 'wt', file)"], pure=True,
+                  why="open(): in mode 'wt' creates / truncates the file; in read modes creates nothing; returns a handle")
+
+register(Assumed(FSH + "__process_file_fix_tokens", returns="Tuple[str, List[MarkdownToken], bool, Set[str]]",
+                 raises=FIX_RAISES, modifies=["*", "number_of_scan_failures", "g_files.$dict"],
+                 ensures=[MONO,
+                          # either nothing was changed at token level and the original path is handed back, or the regenerated document
+                          # was written to a new temporary file (now existing) and the token list is emptied
+                          "(result[0] is next_file) or (result[0] in g_files and not old(result[0] in g_files) and not user_file(result[0]))",
+                          "implies(result[0] is next_file, not result[2])",
+                          "forall_val(lambda x: implies(x != result[0], (x in g_files) == old(x in g_files)))",
+                          "implies(result[0] is next_file, forall_val(lambda x: (x in g_files) == old(x in g_files)))"],
+                 xensures={"BaseException": [MONO, "forall_val(lambda x: (x in g_files) == old(x in g_files))"]},
+                 ghost={"g_files": "Set[str]"},
+                 why="token pass of fix mode (parser + rules + regenerator): out of reach (C08 covers its vocabulary).  Temp-file behaviour as "
+                     "read from the code: the only file it creates is the one it returns; on failure before that point nothing is created "
+                     "(NOT proved: __process_file_fix_tokens_apply_fixes writes the file last)"))
+register(Assumed(FSH + "__process_file_fix_rescan", returns="List[MarkdownToken]", fresh_result=True,
+                 raises=[Raises("BadTokenizationError"), Raises("OSError"), Raises("UnicodeError")], modifies=["*"],
+                 why="re-parse of the token-fixed temporary file (parser: opaque)"))
+
+register(Contract(
+    key=FSH + "__process_file_fix_lines", properties=["C10", "C15"],
+    ghost={"g_files": "Set[str]"},
+    calls={"open": OPEN_WT, "open.__exit__": Assumed("file.__exit__", pure=True, why="close"),
+           "source_file.read": Assumed("file.read", returns="str", pure=True, why="debug dump of a file (only under -x-fix-debug)"),
+           "self.__process_lines_in_file": FSH + "__process_lines_in_file"},
+    requires=["temporary_file_name not in g_files"],
+    ensures=["forall_val(lambda x: implies(x != temporary_file_name, (x in g_files) == old(x in g_files)))", MONO],
+    xensures={"BaseException": ["forall_val(lambda x: implies(x != temporary_file_name, (x in g_files) == old(x in g_files)))", MONO]},
+    raises=FIX_RAISES,
+    modifies=["*", "number_of_scan_failures", "g_files.$dict"],
+    types={"source_file": "TextFile"},
+))
+
+register(Contract(
+    key=FSH + "__process_file_fix_pass", properties=["C10", "C15", "C09"],
+    ghost=dict(FIXG, g_tokfix="bool", g_nrec="int", g_two="str"),
+    calls={"self.__get_temporary_file_name": TMPNAME,
+           "self.__process_file_fix_tokens": (FSH + "__process_file_fix_tokens", ["g_tokfix = result[2]", "g_two = result[0]"]),
+           "self.__process_file_fix_lines": (FSH + "__process_file_fix_lines", ["g_nrec = len(result[0])"]),
+           "self.__process_file_fix_rescan": FSH + "__process_file_fix_rescan"},
+    requires=["next_file not in g_files", "user_file(next_file)"],
+    ensures=[
+        # C10: the user's file is overwritten  <=>  the pass reports that something was fixed  <=>  line records or token fixes exist
+        "result[0] == (g_nrec > 0 or g_tokfix)",
+        "(next_file in g_written) == (old(next_file in g_written) or result[0])",
+        "forall_val(lambda x: implies(x != next_file, (x in g_written) == old(x in g_written)))",
+        # C15: no temporary file of the pass survives it
+        "forall_val(lambda x: (x in g_files) == old(x in g_files))", MONO,
+    ],
+    xensures={"BaseException": ["forall_val(lambda x: (x in g_files) == old(x in g_files))",      # ... also when a rule or the parser fails
+                                "forall_val(lambda x: implies(x != next_file, (x in g_written) == old(x in g_written)))", MONO]},
+    raises=FIX_RAISES,
+    modifies=["*", "number_of_scan_failures", "g_files.$dict", "g_written.$dict"],
+))
+
+# ------------------------------------------------------------------------------------------------ fix-level scheduler (C09 / C10)
+register(Contract(
+    key=FSH + "__process_file_fix_next_level", properties=["C09", "C10", "C15"],
+    ghost=FIXG,
+    types={"plugins_by_fix_level": "Dict[int, List[str]]", "fixes_by_id": "Dict[str, FoundPlugin]", "fix_list": "List[str]", "collect_list": "List[str]",
+           "trigger_set": "Set[str]", "new_minimum_fix_level": "Optional[int]"},
+    calls={"self.__process_file_fix_pass": FSH + "__process_file_fix_pass"},
+    requires=["next_file not in g_files", "user_file(next_file)"],
+    ensures=[
+        # C09: the scheduler only ever moves to a strictly higher fix level, and stops when nothing of a higher level triggered
+        "implies(result[0], result[2] > minimum_fix_level)", "implies(not result[0], result[2] == minimum_fix_level)",
+        # C10: the file is overwritten in this pass iff the pass reports a fix
+        "(next_file in g_written) == (old(next_file in g_written) or result[1])",
+        "forall_val(lambda x: implies(x != next_file, (x in g_written) == old(x in g_written)))",
+        "forall_val(lambda x: (x in g_files) == old(x in g_files))", MONO,
+    ],
+    xensures={"BaseException": ["forall_val(lambda x: (x in g_files) == old(x in g_files))",
+                                "forall_val(lambda x: implies(x != next_file, (x in g_written) == old(x in g_written)))", MONO]},
+    # the assert / lookup on the triggered ids relies on the rule engine reporting only ids of the collect list (not proved here)
+    raises=FIX_RAISES + [Raises("KeyError")],
+    modifies=["*", "number_of_scan_failures", "g_files.$dict", "g_written.$dict"],
+    loops={1: Loop(invariant=["new_minimum_fix_level is None or new_minimum_fix_level > minimum_fix_level",
+                              "forall_val(lambda x: (x in g_files) == old(x in g_files))",
+                              "(next_file in g_written) == (old(next_file in g_written) or did_anything_get_fixed_this_time)",
+                              "forall_val(lambda x: implies(x != next_file, (x in g_written) == old(x in g_written)))", MONO])},
+))
+
+register(Contract(
+    key=FSH + "__process_file_fix", properties=["C09", "C10", "C15"],
+    ghost=FIXG,
+    types={"plugins_by_fix_level": "Dict[int, List[str]]", "fixes_by_id": "Dict[str, FoundPlugin]", "level_list": "List[str]",
+           "fix_plugins_with_levels": "List[Tuple[str, int]]"},
+    calls={"self.__process_file_fix_next_level": FSH + "__process_file_fix_next_level"},
+    requires=["next_file not in g_files", "user_file(next_file)"],
+    ensures=[
+        # C10: did_anything_get_fixed  <=>  the user's file was overwritten during this call; no other file is ever written
+        "(next_file in g_written) == (old(next_file in g_written) or result)",
+        "forall_val(lambda x: implies(x != next_file, (x in g_written) == old(x in g_written)))",
+        "forall_val(lambda x: (x in g_files) == old(x in g_files))", MONO,
+    ],
+    xensures={"BaseException": ["forall_val(lambda x: (x in g_files) == old(x in g_files))",
+                                "forall_val(lambda x: implies(x != next_file, (x in g_written) == old(x in g_written)))", MONO]},
+    # C09: never fails internally: no ValueError from min() of an empty map, no KeyError from the level map
+    raises=FIX_RAISES + [Raises("KeyError")],
+    modifies=["*", "number_of_scan_failures", "g_files.$dict", "g_written.$dict"],
+    loops={1: Loop(invariant=["forall_val(lambda x: (x in g_files) == old(x in g_files))",
+                              "(next_file in g_written) == (old(next_file in g_written) or did_anything_get_fixed)",
+                              "forall_val(lambda x: implies(x != next_file, (x in g_written) == old(x in g_written)))", MONO,
+                              "self.__plugins is old(self.__plugins)"])},
 ))
